@@ -1316,6 +1316,8 @@ def _read_graph_dimacs_format(inputfile, graph_class):
     for i, l in enumerate(inputfile.readlines()):
 
         l = l.strip()
+        if len(l) == 0:
+            continue
 
         # add the comment to the header
         if l[0] == 'c':
